@@ -288,6 +288,11 @@ func CloseRaw[T any](c chan<- T) {
 	st := stSend(c)
 	if st != nil {
 		st.closed = true
+		if sched.InTimer() || sched.Me() == nil {
+			sched.TouchFromTimer(&st.obj)
+		} else {
+			sched.Touch(&st.obj, 16)
+		}
 	}
 }
 
@@ -298,6 +303,7 @@ func Offer[T any](c chan<- T, v T) bool {
 		return false
 	}
 	st.q = append(st.q, box[T]{v})
+	sched.TouchFromTimer(&st.obj)
 	return true
 }
 
